@@ -1011,6 +1011,13 @@ def guards_at(fn, b):
                         out.append((discr, bool(v)))
                     else:
                         out.append((("switchval", discr), v))
+            # several values sharing one target (`A | B => ..` arms): the edge is taken for exactly that set of values
+            shared = {}
+            for v, tgt in t["targets"]:
+                shared.setdefault(tgt, []).append(v)
+            for tgt, vs in shared.items():
+                if len(vs) > 1 and tgt != t["otherwise"] and t["opty"] != "bool" and fn.edge_dominates(s, tgt, b):
+                    out.append((("switchin", discr), tuple(sorted(vs))))
             o = t["otherwise"]
             if all(o != tgt for _, tgt in t["targets"]) and fn.edge_dominates(s, o, b):
                 vals = [v for v, _ in t["targets"]]
